@@ -6,6 +6,7 @@ import (
 	"sort"
 	"strings"
 	"testing"
+	"time"
 
 	"pgregory.net/rapid"
 
@@ -477,6 +478,7 @@ func TestInstanceDeliveryRapid(t *testing.T) {
 		nIDs := rapid.IntRange(5, 12).Draw(rt, "ids")
 		variant := rapid.IntRange(0, 50).Draw(rt, "variant")
 		nUpd := rapid.IntRange(3, 8).Draw(rt, "updates")
+		epoch := rapid.SampledFrom([]int64{0, 0, time.Now().Unix() - 5, time.Now().Unix() + 3600, time.Now().Unix() + 365*86400}).Draw(rt, "timestampEpoch")
 		var updates []*ring.Desc
 		for u := 0; u < nUpd; u++ {
 			d := ring.NewDesc()
@@ -485,6 +487,7 @@ func TestInstanceDeliveryRapid(t *testing.T) {
 					continue
 				}
 				in := instEntry(i, int64(rapid.IntRange(1, 10).Draw(rt, "ts")), rapid.IntRange(0, 3).Draw(rt, "left") == 0, variant)
+				in.Timestamp += epoch
 				d.Ingesters[in.Id] = in
 			}
 			if rapid.Bool().Draw(rt, "scramble") {
@@ -581,6 +584,9 @@ func TestPartitionDeliveryRapid(t *testing.T) {
 		nOwners := rapid.IntRange(1, 6).Draw(rt, "owners")
 		variant := rapid.IntRange(0, 50).Draw(rt, "variant")
 		nUpd := rapid.IntRange(3, 8).Draw(rt, "updates")
+		// the timestamps are small integers, today's, or written by a clock an hour or a year ahead of
+		// the merging replica's: a merge depends on its operands only
+		epoch := rapid.SampledFrom([]int64{0, 0, time.Now().Unix() - 5, time.Now().Unix() + 3600, time.Now().Unix() + 365*86400}).Draw(rt, "timestampEpoch")
 		var updates []*ring.PartitionRingDesc
 		for u := 0; u < nUpd; u++ {
 			d := ring.NewPartitionRingDesc()
@@ -594,7 +600,11 @@ func TestPartitionDeliveryRapid(t *testing.T) {
 				if rapid.IntRange(0, 3).Draw(rt, "del") == 0 {
 					st = ring.PartitionDeleted
 				}
-				d.Partitions[p] = ring.PartitionDesc{Id: p, Tokens: partTokens(p), State: st, StateTimestamp: ts, StateChangeLocked: lts > 0 && partLock(p, lts, variant), StateChangeLockedTimestamp: lts}
+				ltsAbs := lts
+				if lts > 0 {
+					ltsAbs += epoch
+				}
+				d.Partitions[p] = ring.PartitionDesc{Id: p, Tokens: partTokens(p), State: st, StateTimestamp: ts + epoch, StateChangeLocked: lts > 0 && partLock(p, lts, variant), StateChangeLockedTimestamp: ltsAbs}
 			}
 			for oi := 0; oi < nOwners; oi++ {
 				if rapid.IntRange(0, 2).Draw(rt, "opresent") == 0 {
@@ -605,7 +615,7 @@ func TestPartitionDeliveryRapid(t *testing.T) {
 				if rapid.IntRange(0, 3).Draw(rt, "odel") == 0 {
 					st = ring.OwnerDeleted
 				}
-				d.Owners[fmt.Sprintf("o%d", oi)] = ring.OwnerDesc{OwnedPartition: part, State: st, UpdatedTimestamp: ts}
+				d.Owners[fmt.Sprintf("o%d", oi)] = ring.OwnerDesc{OwnedPartition: part, State: st, UpdatedTimestamp: ts + epoch}
 			}
 			updates = append(updates, d)
 		}
